@@ -236,6 +236,16 @@ def unique (params : List (Value N)) : Except NativeError (Value N) :=
   | [_] => .error .wrongParameterType
   | _ => .error (.wrongParameterCount 1)
 
+/-- `sort` (src/stdlib/common.rs) -/
+def sort (params : List (Value N)) : Except NativeError (Value N) :=
+  match params with
+  | [.arr values] =>
+      (let sorted := values
+       let sorted := StdOrder.sortBy sorted
+       .ok (.arr sorted))
+  | [_] => .error .wrongParameterType
+  | _ => .error (.wrongParameterCount 1)
+
 /-- `is_even` (src/stdlib/math.rs) -/
 def is_even (value : N) : Bool :=
   (NumOps.beq (NumOps.rem (NumX.floor value) (NumX.ofNat 2)) (NumOps.zero : N))
